@@ -47,7 +47,10 @@ Definition dec_exts (v : val) : exts :=
   end.
 Definition dec_msg (v : val) : message :=
   match v with
-  | VL [so; VL rs; eb] => mkMsg (get_bool so) (map get_bool rs) (get_bool eb)
+  | VL [so; VL rs; eb] =>
+      mkMsg (get_bool so)
+            (map (fun v => match v with VL [VN a; ok] => (a, get_bool ok) | _ => (0, true) end) rs)
+            (get_bool eb)
   | _ => mkMsg true [] false
   end.
 Definition dec_conn (n : N) : conn_outcome :=
@@ -57,7 +60,7 @@ Definition enc_cls (c : cls) : N := match c with Perm => 1 | Trans => 2 end.
 Definition enc_rres (r : rres) : val := VN (match r with Delivered => 0 | Failed c => enc_cls c end).
 Definition enc_mres (r : option mres) : val :=
   match r with
-  | Some (MMap l) => VL [VN 0; VL (map enc_rres l)]
+  | Some (MMap l) => VL [VN 0; VL (map (fun r => VN (match r with TDelivered => 0 | TFailed c => enc_cls c | TMissing => 3 end)) l)]
   | Some (MExc c) => VL [VN 1; VN (enc_cls c)]
   | Some MOther => VL [VN 2]
   | None => VL [VN 3]
